@@ -338,32 +338,18 @@ func (r *Run) checkLocks(P string) {
 					}
 				}
 				n++
-				at := ff.At(fa)
-				held, exclusive, released := false, false, false
-				for _, fc := range at {
-					if fc.Kind != "called" || fc.A.Op != "call" {
-						continue
-					}
-					nm := fc.A.Name
-					onMutex := len(fc.A.Args) > 0 && strings.HasSuffix(fc.A.Args[0].String(), ".mutex")
-					if !onMutex {
-						continue
-					}
-					switch {
-					case strings.HasSuffix(nm, "RWMutex).Lock"):
-						held, exclusive = true, true
-					case strings.HasSuffix(nm, "RWMutex).RLock"):
-						held = true
-					case strings.HasSuffix(nm, "RWMutex).Unlock"), strings.HasSuffix(nm, "RWMutex).RUnlock"):
-						released = true
-					}
+				held, exclusive, released := mutexHeldAt(ff, fa)
+				if !held && !released {
+					// lock-held helper: an unexported function that is only ever called
+					// (never stored) from sites of the package that hold the mutex
+					held, exclusive = r.callersHoldMutex(f, pkgOpQueue, 2)
 				}
 				ok2 := held && !released && (!write || exclusive)
 				kind := "read"
 				if write {
 					kind = "write"
 				}
-				r.R.Check(ok2, fmt.Sprintf("%s.lock.items.%s.%s", P, core.FuncName(f), kind), "lock discipline: MemQueue.items is accessed only with q.mutex held in the same function (exclusively for writes), unlocked only by defer",
+				r.R.Check(ok2, fmt.Sprintf("%s.lock.items.%s.%s", P, core.FuncName(f), kind), "lock discipline: MemQueue.items is accessed only with q.mutex held (exclusively for writes) and released only by defer — held in the same function, or in every caller of an unexported helper that is never used as a value",
 					core.FuncName(f)+" "+kind+" of items", r.P.Pos(fa.Pos()), "an unlocked access races with Add/Remove from the batch writer's goroutine and corrupts or loses queued operations",
 					fmt.Sprintf("held=%v exclusive=%v", held, exclusive), fmt.Sprintf("%s of items with mutex held=%v exclusive=%v released-before=%v", kind, held, exclusive, released))
 			}
@@ -405,24 +391,33 @@ func (r *Run) checkCut(P string) {
 		return
 	}
 	ff := r.E.Facts(cut, core.Ctx{})
-	// no cut below max without force
-	okNoCut := false
+	// no cut below max without force: the queue is consumed (Peek/Remove) only
+	// on paths that crossed `force` or `pending >= MaxOperationCount` — written
+	// inline or through a boolean helper (predicate unfolding)
+	alts := []string{"true($1)", "cmp(OperationQueue.Len(_) >= Version.Protocol(_).MaxOperationCount)"}
+	consume := append(r.callsIn(cut, "OperationQueue.Peek"), r.callsIn(cut, "OperationQueue.Remove")...)
+	okNoCut := len(consume) >= 2
+	var detCut []string
+	for _, c := range consume {
+		if r.reachableWithout(ff, c, alts) {
+			okNoCut = false
+			detCut = append(detCut, r.P.Pos(c.Pos())+" reachable without force and without pending >= MaxOperationCount")
+		}
+	}
+	// and a return that crossed neither carries no operations
 	for _, ri := range ff.Returns() {
-		if ri.Class != core.RetSuccess {
+		if ri.Class != core.RetSuccess || !r.reachableWithout(ff, ri.Ret, alts) {
 			continue
 		}
-		if core.HasFact(ri.Facts, "false($1)") && core.HasFact(ri.Facts, "cmp(OperationQueue.Len(_) < Version.Protocol(_).MaxOperationCount)") {
-			// returned Result has no operations assigned
-			okNoCut = true
-			for _, fc := range ri.Facts {
-				if fc.Kind == "stored" && strings.HasSuffix(fc.A.String(), ".Operations") {
-					okNoCut = false
-				}
+		for _, fc := range ri.Facts {
+			if fc.Kind == "stored" && strings.HasSuffix(fc.A.String(), ".Operations") {
+				okNoCut = false
+				detCut = append(detCut, "the below-threshold return carries operations")
 			}
 		}
 	}
-	r.R.Check(okNoCut, P+".cut.threshold", "E3 role (MaxOperationCount): without force and with pending < MaxOperationCount, Cut returns no operations", core.FuncName(cut), r.where(cut),
-		"cutting below the maximum without a timeout produces undersized batches", "early return without operations", "no such return")
+	r.R.Check(okNoCut, P+".cut.threshold", "E3 role (MaxOperationCount) + E8 never-before: the queue is peeked/removed only after force ∨ pending ≥ MaxOperationCount; the return below the threshold carries no operations", core.FuncName(cut), r.where(cut),
+		"cutting below the maximum without a timeout produces undersized batches", fmt.Sprintf("%d consuming calls guarded", len(consume)), strings.Join(detCut, "; "))
 	// peek size = min(pending, max); Remove(len(operations)); result operations = removed
 	peekOK, removeOK, resOK := false, false, false
 	for _, c := range r.callsIn(cut, "OperationQueue.Peek") {
@@ -666,4 +661,71 @@ func (r *Run) refFixedByFirst(gf *core.FnFacts, phi *ssa.Phi, head *ssa.BasicBlo
 		}
 	}
 	return okAll && updates > 0
+}
+
+// mutexHeldAt: the must-facts at ins say that a .mutex was locked (and not unlocked) on every path.
+func mutexHeldAt(ff *core.FnFacts, ins ssa.Instruction) (held, exclusive, released bool) {
+	for _, fc := range ff.At(ins) {
+		if fc.Kind != "called" || fc.A.Op != "call" {
+			continue
+		}
+		nm := fc.A.Name
+		onMutex := len(fc.A.Args) > 0 && strings.HasSuffix(fc.A.Args[0].String(), ".mutex")
+		if !onMutex {
+			continue
+		}
+		switch {
+		case strings.HasSuffix(nm, "RWMutex).Lock"):
+			held, exclusive = true, true
+		case strings.HasSuffix(nm, "RWMutex).RLock"):
+			held = true
+		case strings.HasSuffix(nm, "RWMutex).Unlock"), strings.HasSuffix(nm, "RWMutex).RUnlock"):
+			released = true
+		}
+	}
+	return
+}
+
+// callersHoldMutex: f is an unexported function of package rel that is only
+// called statically (never taken as a value), and every call site holds the
+// mutex (directly or, up to depth, through such a helper again). exclusive is
+// true when every site holds it exclusively.
+func (r *Run) callersHoldMutex(f *ssa.Function, rel string, depth int) (held, exclusive bool) {
+	if depth <= 0 || f.Object() == nil || f.Object().Exported() || f.Parent() != nil {
+		return false, false
+	}
+	sites := 0
+	exclusive = true
+	for _, g := range r.P.SubjectFuncs(rel) {
+		gf := r.E.Facts(g, core.Ctx{})
+		for _, b := range g.Blocks {
+			for _, ins := range b.Instrs {
+				var ops []*ssa.Value
+				for _, op := range ins.Operands(ops) {
+					if op == nil || *op != ssa.Value(f) {
+						continue
+					}
+					c, isCall := ins.(ssa.CallInstruction)
+					if !isCall || c.Common().StaticCallee() != f {
+						return false, false // used as a value
+					}
+					if _, isPlain := ins.(*ssa.Call); !isPlain {
+						return false, false // go / defer: runs outside the caller's critical section
+					}
+					h, ex, rel2 := mutexHeldAt(gf, ins)
+					if !h && !rel2 {
+						h, ex = r.callersHoldMutex(g, rel, depth-1)
+					}
+					if !h || rel2 {
+						return false, false
+					}
+					if !ex {
+						exclusive = false
+					}
+					sites++
+				}
+			}
+		}
+	}
+	return sites > 0, exclusive
 }
